@@ -540,6 +540,32 @@ PROPS["C07"] = {
           ["TurnClient::recv"],
           "verbatim TurnClient::recv read as the sequential code of one task (async/.await dropped; tokio's read / read_exact / timeout / Mutex::lock called through assumed contracts: read returns n <= buf.len()): for every 2-octet frame length and every caller buffer the slice buf[offset..len] is in range, the returned length never exceeds the buffer, and the read loop terminates (each round reads at least one octet or fails)",
           min_verified=1),
+        V("SCTP packet / chunk / parameter walkers: total for chunks of ANY length (Verus)", "sctp_walkers_total", "quick", "proof",
+          ["SctpInner::handle_packet (chunk walker, up to the dispatch)", "SctpInner::handle_init (fixed part)", "SctpInner::handle_init_ack (fixed part + parameter walker)",
+           "SctpInner::handle_forward_tsn (pairs)", "SctpInner::handle_reconfig", "SctpInner::handle_reconfig_outgoing_ssn_reset (fixed part)", "SctpInner::handle_reconfig_response",
+           "SctpInner::handle_sack (fixed part + gap blocks)", "SctpInner::handle_data (up to the in-order hand-over)", "SctpInner::process_data_payload (DATA header reads)"],
+          "verbatim parsing parts of the SCTP handlers read as the sequential code of one task (async/.await dropped; each handler cut where parsing ends): every Bytes read / split_to / advance is within the remaining data for chunk values of any length, chunk_length - 4 and param_len - 4 do not underflow, every walker terminates; process_data_payload needs the 12-octet DATA header (requires) and handle_data establishes it at the hand-over",
+          min_verified=21),
+        V("H.264 depacketiser: total for a payload of ANY length (Verus)", "h264_depack_total", "quick", "proof",
+          ["H264Depacketizer::push"],
+          "verbatim push (STAP-A walker, FU-A reassembly, single NAL; types copied from the source, tracing macros dropped): payload[0], payload[1], payload[2..], the STAP-A length reads and Bytes::slice ranges are in bounds for every payload and every reassembly state, the STAP-A loop terminates",
+          min_verified=1),
+        V("UDPTL datagram parse: total for a datagram of ANY length (Verus)", "udptl_parse_total", "quick", "proof",
+          ["UdtlTransport::recv (parsing statements)"],
+          "the statements of recv between the socket read and try_deliver, copied verbatim as one function of (buf, n): for every n <= buf.len() the sequence number, primary-IFP and redundant-IFP reads and slices are in bounds and the redundancy walker terminates",
+          min_verified=2),
+        V("DTLS hello extension walks: total for an extension block of ANY length (Verus)", "dtls_ext_walk_total", "quick", "proof",
+          ["DtlsInner::handle_client_hello (extension walk)", "DtlsInner::handle_server_hello (extension walk)"],
+          "the extension-walking statements of both hello handlers, copied verbatim as functions of (hello.extensions, ctx): get_u16 / split_to within the remaining data, the use_srtp profile-list loop indexes within the extension, both loops terminate",
+          min_verified=5),
+        V("DTLS handshake fragment walker / reassembly: total for a record payload of ANY length (Verus)", "dtls_reassembly_total", "quick", "proof",
+          ["DtlsInner::process_handshake_payload", "HandshakeMessage::decode"],
+          "verbatim process_handshake_payload read as the sequential code of one task, with the real HandshakeMessage::decode under the postcondition 'a decoded message consumes at least its 12-octet header': the walker terminates, msg_buf.len() - body.len() does not underflow, the raw-message slice is in range, and no arithmetic on the u16 in-order counter recv_message_seq (which the post-HelloVerifyRequest path sets to whatever the peer sent) can overflow",
+          min_verified=5),
+        V("remote SDP a=mid arithmetic: every mid string (Verus)", "remote_mid_total", "quick", "proof",
+          ["PeerConnection::set_remote_description (next_mid update)"],
+          "the statements of set_remote_description that move next_mid past the numeric mids of the remote description, copied verbatim as a function of (self.inner.next_mid, desc.media_sections) with str::parse::<u16> returning any u16: the u16 arithmetic on the parsed mid does not overflow",
+          min_verified=2),
     ],
 }
 
